@@ -264,6 +264,10 @@ def run_data(desc, ctx):
                             {"ds": ds, "metric": name, "agg": agg, "axis": axis})
             # csv
             argv = paths + ["-m", name, "-x", axis, "-type", "csv"] + (["-agg", agg] if agg else [])
+            if not m.supports_aggregator and rng.random() < 0.4:
+                # "-m <metric> does not support -agg": the option is ignored (with a warning), the score is still its definition
+                argv += ["-agg", rng.choice(["median", "max", "min", "0.9", "std"])]
+                ctx.count("csv_with_unsupported_agg")
             if not verif.metric.get(name).supports_threshold and rng.random() < 0.3:
                 # thresholds are "only used by some metrics": for the others the score must not change with -r / -b
                 bt = rng.choice(list(attach.BIN_TABLE))
